@@ -523,6 +523,91 @@ func main {
 	println(buf.String(), total)
 }
 `,
+	// package-level initialisation whose dependency graph runs through function
+	// cycles (length 2 and 3), self recursion, method values and closures; several
+	// independent variables declared after the dependent ones; initialisers with
+	// visible side effects
+	`global total = sumTo(4) + weight
+global label = describe(2)
+global weight = 7
+global scale = 3
+global table = build(3)
+global last = note("last")
+global depth = ping(5)
+global first = note("first")
+
+type Acc :struct {
+	n: int
+}
+
+func Acc.Add(v: int) => int {
+	this.n += v * scale
+	return this.n
+}
+
+global acc = Acc{n: 1}
+global bump = acc.Add
+
+func sumTo(n: int) => int {
+	if n <= 0 {
+		return scale
+	}
+	return n + sumDown(n-1)
+}
+
+func sumDown(n: int) => int {
+	if n <= 0 {
+		return weight
+	}
+	return n + sumTo(n-1)
+}
+
+func ping(n: int) => int {
+	if n <= 0 {
+		return len(label)
+	}
+	return pong(n - 1)
+}
+
+func pong(n: int) => int {
+	if n <= 0 {
+		return weight
+	}
+	return pang(n - 1)
+}
+
+func pang(n: int) => int {
+	if n <= 0 {
+		return scale
+	}
+	return ping(n - 1)
+}
+
+func describe(n: int) => string {
+	if n == 0 {
+		return "d"
+	}
+	return describe(n-1) + "x"
+}
+
+func build(n: int) => []int {
+	r := []int{}
+	f := func(i: int) => int { return i*scale + weight }
+	for i := 0; i < n; i++ {
+		r = append(r, f(i))
+	}
+	return r
+}
+
+func note(s: string) => string {
+	println("init", s)
+	return s
+}
+
+func main {
+	println(total, label, weight, scale, len(table), last, depth, first, bump(2), acc.n)
+}
+`,
 }
 
 const appleProgram = `
